@@ -189,3 +189,25 @@ def collision_check():
             out.append({"uris": [u1, u2], "module_ids": [t1.module.__name__, t2.module.__name__],
                         "problem": "Template.source of %s is %r" % (u1, s1)})
     return out
+
+
+def getdef_args_check():
+    """a single def rendered through get_def(name).render(**values): the values reach it as given - also 0, '', None, False
+    and empty containers - exactly as when the template calls the def itself"""
+    from mako.template import Template
+    src = '<%def name="cell(n=5, label=\'none\', flag=True, items=(1,))">[${repr(n)}|${repr(label)}|${repr(flag)}|${repr(items)}]</%def>'
+    t = Template(src)
+    bad = []
+    for values in ({"n": 0}, {"label": ""}, {"flag": False}, {"items": []}, {"n": None}, {"n": 0, "label": "", "flag": None, "items": ()},
+                   {"n": 7, "label": "x"}, {}):
+        call = ", ".join("%s=%r" % kv for kv in values.items())
+        want = Template(src + "${cell(%s)}" % call).render_unicode()
+        for entry in ("render", "render_unicode"):
+            try:
+                got = getattr(t.get_def("cell"), entry)(**values)
+                got = got.decode() if isinstance(got, bytes) else got
+            except Exception as e:
+                got = "%s: %s" % (type(e).__name__, str(e)[:80])
+            if got != want:
+                bad.append({"path": "get_def('cell').%s(%s)" % (entry, call), "got": got, "expected": want})
+    return bad
